@@ -114,6 +114,24 @@ def is_live(w, o) -> bool:
     return plain_get(w, p.split(".")) is o
 
 
+def is_member_somewhere(w, o) -> bool:
+    """Is `o` currently listed in the members of its parent or of the collection (attached or inside a detached/dead container)?"""
+    if any(o is m for m in w.col.members.values()):
+        return True
+    p = o.parent
+    return p is not None and not p.is_alias and any(o is m for m in p.members.values())
+
+
+def alias_entries(w):
+    """Every back-reference entry of every object ever constructed: (id(target), key) -> alias object."""
+    out = {}
+    for o in w.objs:
+        if not o.is_alias:
+            for k, a in o.aliases.items():
+                out[(id(o), k)] = a
+    return out
+
+
 def is_top_down(w, op) -> bool:
     """Python mirror of the Coq predicate top_down (evaluated in the state before the operation)."""
     t = op[0]
@@ -399,41 +417,77 @@ def tainted_by(w: World, op):
     return out
 
 
-def is_f1(w: World, failure, tainted, once_live=frozenset()) -> bool:
-    """Both shapes of C16-F1 (a back-reference registered under the path an alias has while its container is detached):
-    (a) the failing alias was resolved inside a subtree when that subtree was attached, and its registration has not been
-        refreshed since: it is listed only under proper suffixes of its current path (or not at all any more);
-    (b) the failing alias's own key is held by an alias that has never been in the tree: one under construction in a
-        detached container whose detached path happens to spell the same."""
-    clause, detail, aid = failure
-    if clause != "backref-listed":
-        return False
-    cur = detail["alias"].split(".")
-    if aid in tainted and all(len(k.split(".")) < len(cur) and cur[-len(k.split(".")):] == k.split(".") for k in detail["keys"]):
-        return True
-    hb = detail.get("held_by")
-    if hb is not None and hb >= 0 and id(w.objs[hb]) not in once_live and not is_live(w, w.objs[hb]):
-        return True
-    return False
-
-
 class Direct:
-    """Drives one history on the implementation and evaluates the property after every step (no model involved)."""
+    """Drives one history on the implementation and evaluates the property after every step (no model involved).
+
+    Known findings are recognised by EXACT predicates over what is observed of the history, never by the mere shape of the
+    history: every write into an `aliases` dictionary is observed (dictionary diff around each operation) and remembered as the
+    alias's last registration (target, key, parent at that time).
+      C16-F1  (key never refreshed) the failing alias has never been written under its present path at its present target, it has
+              been under a key that agrees with its present path from the parent's name on, and an ancestor of it was attached
+              after its last observed registration;
+              (clobbered from outside the tree) it HAS been written under its present path, but the entry now holds an alias that
+              has never been in the tree and whose own (detached) path spells the same key.
+      C16-F3  the same clobbering by an alias that HAS been in the tree and was deleted or replaced since (its stale entry in the
+              aliases of a replaced object is re-targeted by set_member and re-registers under the path it no longer occupies).
+      C16-F2  after a set_member replacement a followed alias's target_path is the path the new member had BEFORE it was attached
+              (or the alias did not follow because that stale path equals the alias's own path: spurious CyclicAliasError).
+    """
 
     def __init__(self, ctx, w: World, label: str):
         self.ctx, self.w, self.label = ctx, w, label
         self.spec = Spec()
         self.tainted = set()
         self.misuse = False      # a hypothesis of the property does not hold for this history (key != name, alias directly in
-        #                          the collection, re-inserted object, operation on an object that is no longer in the tree)
+        #                          the collection, object inserted while it is a member elsewhere, former sub-object put directly
+        #                          into the collection, operation applied to an object that is no longer in the tree)
         self.once_live = set()
         self.history = []
         self.top_down = True
         self.shrink = True
         self.reported = False
+        self.regs = {}           # id(alias) -> {(id(target), key)}: every entry ever observed to hold the alias
+        self.entries = {}        # (id(target), key) -> alias: the aliases dictionaries after the previous step
 
     def dead(self, o) -> bool:
         return id(o) in self.once_live and not is_live(self.w, o)
+
+    def classify(self, f, pre_path=None):
+        """Finding id when the failure satisfies that finding's exact predicate, else None (= a new violation)."""
+        clause, detail, aid = f
+        w = self.w
+        if clause == "alias-follows-replacement":
+            if detail.get("sub") == "target_path" and detail["target_path"] == pre_path and pre_path != detail["expected"]:
+                return "C16-F2"
+            if detail.get("sub") is None and pre_path is not None and pre_path == detail["alias"] and pre_path != detail.get("now"):
+                return "C16-F2"     # the same early read of value.path makes the self-reference guard compare a stale path
+            return None
+        if clause != "backref-listed" or aid is None or aid < 0:
+            return None
+        a = w.objs[aid]
+        t = a.target
+        cur = detail["alias"]
+        regs = self.regs.get(id(a), ())
+        if (id(t), cur) not in regs:
+            # never written under its present path at this target: known only as a key that was right before an ancestor moved
+            c = cur.split(".")
+            stale = [k.split(".") for tt, k in regs if tt == id(t)]
+            if aid in self.tainted and any(len(k) >= 2 and k[-2:] == c[-2:] for k in stale):
+                return "C16-F1"
+            return None
+        hb = detail.get("held_by")
+        if hb is None or hb < 0 or hb == aid:
+            return None
+        h = w.objs[hb]
+        if is_live(w, h):
+            return None
+        try:
+            hp = h.path
+        except (AttributeError, RecursionError):
+            return None
+        if hp != cur:
+            return None
+        return "C16-F3" if id(h) in self.once_live else "C16-F1"
 
     def step(self, op, form, skip=False, only_alloc=False):
         w = self.w
@@ -453,30 +507,44 @@ class Direct:
             self.misuse = True
         if op[0] == "set" and op[4] < len(w.objs):
             v = w.objs[op[4]]
-            if v.parent is not None or any(v is m for m in w.col.members.values()):
-                self.misuse = True      # re-inserting an attached object: sharing
+            if is_member_somewhere(w, v):
+                self.misuse = True      # inserting an object that is still a member somewhere: sharing
+            if op[2] == [] and len(op[3]) == 1 and v.parent is not None:
+                self.misuse = True      # the collection API cannot clear the parent of a former sub-object
         refs = []
         if op[0] in ("new", "del", "set") and op[2] != [] and op[2][0] < len(w.objs):
             refs.append(w.objs[op[2][0]])
         if op[0] in ("resolve", "settarget") and op[1] < len(w.objs):
             refs.append(w.objs[op[1]])
-        if op[0] == "set" and op[4] < len(w.objs):
-            refs.append(w.objs[op[4]])
         if any(self.dead(o) for o in refs):
             self.misuse = True
-        self.tainted |= tainted_by(w, op)
+        taint = tainted_by(w, op)
         before = None
         replaced = None
+        pre_path = None
         if op[0] in ("new", "set") and not only_alloc:
             P = abs_path(w, self.spec, op[2], op[3]) if op[3] else None
             if op[1] == 0 and P is not None and P in self.spec.d and not self.spec.d[P].is_alias:
                 replaced = self.spec.d[P]
                 before = live_aliases_targeting(w, replaced)
+            if op[0] == "new":
+                pre_path = op[3][-1] if op[3] else None
+            elif op[4] < len(w.objs):
+                try:
+                    pre_path = w.objs[op[4]].path
+                except (AttributeError, RecursionError):
+                    pre_path = None
         out = w.apply(op, form, only_alloc=only_alloc)
         if only_alloc:
             return "scope"
-        if out == "ok" and op[0] in ("resolve", "settarget"):
-            self.tainted.discard(op[1])
+        # registrations observed during this operation; subtree attachment (which comes last in set_member) taints afterwards
+        now = alias_entries(w)
+        for key, a in now.items():
+            if self.entries.get(key) is not a:
+                self.regs.setdefault(id(a), set()).add(key)
+                self.tainted.discard(w.idx(a))
+        self.entries = now
+        self.tainted |= taint
         # reference dictionary
         if out == "ok":
             if op[0] in ("new", "set"):
@@ -504,19 +572,28 @@ class Direct:
                 v = w.objs[-1] if op[0] == "new" else w.objs[op[4]]
                 still = {id(m) for _, _, _, m in w.walk()}
                 for p, a in before:
-                    if id(a) in still and a.target is not v:
-                        fails.append(("alias-follows-replacement", {"alias": ".".join(p), "replaced": w.idx(replaced)}, w.idx(a)))
+                    if id(a) not in still:
+                        continue
+                    if a.target is not v:
+                        fails.append(("alias-follows-replacement", {"alias": ".".join(p), "replaced": w.idx(replaced), "now": v.path}, w.idx(a)))
+                    elif a.target_path != v.path:
+                        # following the replacement includes naming it: Object.resolve, the JSON form and a later
+                        # resolve_target all go by target_path
+                        fails.append(("alias-follows-replacement", {"sub": "target_path", "alias": ".".join(p), "replaced": w.idx(replaced),
+                                                                    "target_path": a.target_path, "expected": v.path}, w.idx(a)))
             if op[0] == "settarget" and op[1] == op[2] and out != "cyclic" and w.objs[op[1]].is_alias:
                 fails.append(("no-self-target", {"alias": op[1], "outcome": out}, op[1]))
-        for f in fails[:3]:
-            fid = "C16-F1" if is_f1(w, f, self.tainted, self.once_live) else None
-            self.ctx.observe("direct_failure", f[0] + ("/F1" if fid else ""))
+        seen_known = set()
+        for f in fails[:6]:
+            fid = self.classify(f, pre_path)
+            self.ctx.observe("direct_failure", f[0] + ("/" + fid[4:] if fid else ""))
             if fid is None and self.shrink and not self.reported:
                 self.reported = True
                 small = shrink_history([dict(h) for h in self.history], f[0])
                 self.ctx.property_failure({"stream": self.label, "history": small, "original_length": len(self.history)},
                                           {"clause": f[0], "detail": f[1]}, finding=None)
-            else:
+            elif fid is None or fid not in seen_known:
+                seen_known.add(fid)
                 self.ctx.property_failure({"stream": self.label, "history": list(self.history)}, {"clause": f[0], "detail": f[1]}, finding=fid)
         return out
 
@@ -557,7 +634,7 @@ def impl_scope_skip(w, op) -> bool:
                 return True
         except Exception:  # noqa: BLE001
             pass
-    return through_alias(w, op)
+    return through_alias(w, op) or self_replace(w, op)
 
 
 def still_fails(hist, clause) -> bool:
@@ -679,6 +756,8 @@ class Gen:
     def __init__(self, rng, stream):
         self.rng, self.stream = rng, stream
         self.w = World()
+        self.once_live = set()
+        self.td = stream in ("top-down", "reattach")      # operations are applied to objects of the tree only
 
     def name(self):
         return self.rng.choice(NAMES)
@@ -715,7 +794,7 @@ class Gen:
             if anc is self.w.col:
                 return [], list(p)
             return [self.w.idx(anc)], list(p[cut:])
-        if self.stream != "top-down" and rng.random() < 0.05:
+        if not self.td and rng.random() < 0.05:
             dead = [i for i, o in enumerate(self.w.objs) if not o.is_alias]
             if dead:
                 return [rng.choice(dead)], []
@@ -766,6 +845,10 @@ class Gen:
                     return ["settarget", a, a], form
             if kind == "deep":
                 return ["new", 0, [], [self.name() for _ in range(5)], "F", []], form
+        if self.stream == "reattach":
+            op = self.reattach_op()
+            if op is not None:
+                return op, form
         if self.stream == "bottom-up" and r < 0.22:
             k = rng.choice("MCCFAL")
             return ["alloc", k, self.name(), self.target_choice() if k == "L" else []], form
@@ -807,9 +890,9 @@ class Gen:
         if not al:
             return ["new", 0, [], [self.name()], "M", []], form
         live_al = [w.idx(m) for _, _, _, m in self.live() if m.is_alias]
-        if self.stream == "top-down" and not live_al:
+        if self.td and not live_al:
             return ["new", 0, [], [self.name()], "M", []], form
-        a = rng.choice(live_al) if live_al and (self.stream == "top-down" or rng.random() < 0.85) else rng.choice(al)
+        a = rng.choice(live_al) if live_al and (self.td or rng.random() < 0.85) else rng.choice(al)
         if r < 0.88:
             return ["resolve", a], form
         cands = [i for i, o in enumerate(w.objs) if not o.is_alias]
@@ -818,6 +901,38 @@ class Gen:
         else:
             v = rng.choice(cands)
         return ["settarget", a, v], form
+
+    def reattach_op(self):
+        """Operations that re-use object identities: a deleted / replaced object (alias or plain, with whatever it still
+        contains) is inserted again, under its own name, somewhere in the tree; a live alias is replaced by a new alias with
+        the same name and the same target. None: fall through to the ordinary top-down choices."""
+        rng, w = self.rng, self.w
+        r = rng.random()
+        if r < 0.17:
+            gone = [i for i, o in enumerate(w.objs) if id(o) in self.once_live and not is_member_somewhere(w, o)]
+            if not gone:
+                return None
+            al = [i for i in gone if w.objs[i].is_alias]
+            v = rng.choice(al) if al and rng.random() < 0.6 else rng.choice(gone)
+            o = w.objs[v]
+            for _ in range(4):
+                rc, pre = self.container_choice()
+                if rc == [] and not pre and (o.is_alias or o.parent is not None):
+                    continue        # the collection takes parentless non-alias objects only
+                key = o.name if rng.random() < 0.95 else self.name()
+                return ["set", 1 if rng.random() < 0.25 else 0, rc, pre + [key], v]
+            return None
+        if r < 0.27:
+            live_al = [(p, m) for p, _, _, m in self.live() if m.is_alias and len(p) >= 2]
+            if not live_al:
+                return None
+            p, m = rng.choice(live_al)
+            if m.resolved and not m.target.is_alias and rng.random() < 0.5:
+                tgt = ["o", w.idx(m.target)]
+            else:
+                tgt = ["s", split_path(m.target_path)]
+            return ["new", 1 if rng.random() < 0.25 else 0, [], list(p), "L", tgt]
+        return None
 
     def history(self, n):
         out = []
@@ -842,6 +957,8 @@ class Gen:
                 except Exception:  # noqa: BLE001
                     pass
             w.apply(op, form)
+            if self.stream == "reattach":
+                self.once_live |= {id(m) for _, _, _, m in w.walk()}
         return out
 
 
@@ -972,6 +1089,10 @@ def functools_reduce_get(col, parts):
     return cur
 
 
+class _Done(Exception):
+    pass
+
+
 def impl_only_history(ctx, n, label="impl-only"):
     """Top-down histories that also use alias chains, lookups through aliases and modules with file paths (stub merge).
     Only the clauses that are meaningful there are evaluated: parent/retrievable/dotted=chained/deleted-gone/no-self-target and,
@@ -1000,11 +1121,42 @@ def impl_only_history(ctx, n, label="impl-only"):
         p, c = rng.choice(conts)
         name = rng.choice(NAMES)
         r = rng.random()
+        crossing = None       # the real container when the path goes THROUGH a resolved alias
+        if rng.random() < 0.12:
+            cands = []
+            for q, _, m in tree:
+                if m.is_alias and m.resolved and len(q) >= 2:
+                    try:
+                        ft = m.final_target
+                    except (ARE, CAE, KeyError, AttributeError, ValueError):
+                        continue
+                    if ft.is_module or ft.is_class:
+                        cands.append((q, ft))
+            if cands:
+                p, crossing = rng.choice(cands)
+                subs = [(k2, m2) for k2, m2 in crossing.members.items() if not m2.is_alias and (m2.is_class or m2.is_module)]
+                if subs and rng.random() < 0.3:
+                    k2, crossing = rng.choice(subs)
+                    p = p + (k2,)
+                c = crossing
+                if crossing.members and rng.random() < 0.6:
+                    name = rng.choice(list(crossing.members))
+                r = rng.random() * 0.62
         key = p + (name,)
         k = ".".join(key) if rng.random() < 0.5 else key
+        did = None
+        snapshot = dict(crossing.members) if crossing is not None else None
         try:
             if r < 0.5:
-                if not p:
+                if crossing is not None:
+                    kind = rng.choice("CFAL")
+                    if kind == "L":
+                        tp = ".".join(rng.choice(tree)[0]) if tree and rng.random() < 0.85 else "zz.q"
+                        o = griffe.Alias(name, tp)
+                    else:
+                        o = {"C": griffe.Class, "F": griffe.Function, "A": griffe.Attribute}[kind](name)
+                    did = ("set", o)
+                elif not p:
                     o = griffe.Module(name, filepath=Path(f"/x/{name}" + rng.choice([".py", ".pyi", ".py"])))
                 else:
                     kind = rng.choice("MCFALL")
@@ -1038,10 +1190,14 @@ def impl_only_history(ctx, n, label="impl-only"):
                     col[k] = o
             elif r < 0.62:
                 hist.append(["del", k if isinstance(k, str) else list(k)])
+                if crossing is not None:
+                    did = ("del", None)
                 if rng.random() < 0.5:
                     col.del_member(k)
                 else:
                     del col[k]
+                if crossing is not None:
+                    raise _Done
                 try:
                     col.get_member(k)
                     ctx.property_failure({"stream": label, "history": hist}, {"clause": "deleted-gone", "detail": str(k)})
@@ -1063,11 +1219,39 @@ def impl_only_history(ctx, n, label="impl-only"):
                     moved.discard(id(a))
                     if v is a:
                         ctx.property_failure({"stream": label, "history": hist}, {"clause": "no-self-target", "detail": "self assignment accepted"})
+        except _Done:
+            ctx.observe("impl_only_outcome", "ok")
         except (KeyError, AttributeError, ValueError, ARE, CAE) as e:
             hist.append(["->", type(e).__name__])
             ctx.observe("impl_only_outcome", type(e).__name__)
+            did = None
         else:
             ctx.observe("impl_only_outcome", "ok")
+        if did is not None:
+            # an accepted insertion / deletion whose path goes through an alias: the object must be what the same key now
+            # finds (directly or wrapped), resp. the key must find nothing any more
+            ctx.observe("impl_only_event", "through-alias-" + did[0])
+            bad = None
+            try:
+                got = col.get_member(k)
+                if did[0] == "del":
+                    bad = "deleted-gone"
+                elif got is not did[1] and not (got.is_alias and got.resolved and got.target is did[1]):
+                    bad = "retrievable-by-own-path"     # neither the object nor the wrapper Alias.members builds around it
+            except KeyError:
+                if did[0] == "set":
+                    bad = "retrievable-by-own-path"
+            except (ARE, CAE):
+                pass
+            if bad:
+                # C16-F4, exact: the operation was accepted and the members of the real container are exactly what they were
+                same = list(crossing.members.items()) == list(snapshot.items()) and all(a is b for a, b in zip(crossing.members.values(), snapshot.values()))
+                fid = "C16-F4" if same else None
+                ctx.observe("direct_failure", "impl-only:through-alias:" + bad + ("/F4" if fid else ""))
+                ctx.property_failure({"stream": label, "history": list(hist)}, {"clause": bad, "detail": {"key": str(k), "through_alias": True}}, finding=fid)
+                if fid is None:
+                    return
+                return      # the inserted object now hangs under a transient alias: the history ends here
         for q, c2, m in walk():
             dotted = ".".join(q)
             bad = None
@@ -1167,10 +1351,73 @@ def replay_witness(ctx):
     return reproduced
 
 
+def replay_witness_f2(ctx):
+    griffe, _, _ = _griffe()
+    col = griffe.ModulesCollection()
+    m = griffe.Module("m")
+    col.set_member("m", m)
+    m.set_member("f", griffe.Function("f"))
+    al = griffe.Alias("al", "m.f")
+    m.set_member("al", al)
+    al.resolve_target()
+    f2 = griffe.Function("f")
+    m.set_member("f", f2)
+    ctx.witness("C16-F2", al.target is f2 and f2.path == "m.f" and al.target_path == "f")
+
+
+def replay_witness_f4(ctx):
+    g, _, _ = _griffe()
+    col = g.ModulesCollection()
+    m = g.Module("m")
+    col.set_member("m", m)
+    c = g.Class("C")
+    m.set_member("C", c)
+    x = g.Function("x")
+    c.set_member("x", x)
+    al = g.Alias("al", "m.C")
+    m.set_member("al", al)
+    al.resolve_target()
+    try:
+        col.del_member("m.al.x")
+        y = g.Function("y")
+        col.set_member(("m", "al", "y"), y)
+        ok = c.members.get("x") is x and "y" not in c.members and y.path == "m.al.y"
+    except Exception:  # noqa: BLE001
+        ok = False
+    ctx.witness("C16-F4", ok)
+
+
+def replay_witness_f3(ctx):
+    g, _, _ = _griffe()
+    col = g.ModulesCollection()
+    m, n = g.Module("m"), g.Module("n")
+    col.set_member("m", m)
+    col.set_member("n", n)
+    t, u = g.Function("x"), g.Function("x")
+    m.set_member("x", t)
+    n.set_member("x", u)
+    a = g.Alias("t", "m.x")
+    m.set_member("t", a)
+    a.resolve_target()
+    m.del_member("t")
+    b = g.Alias("t", "n.x")
+    m.set_member("t", b)
+    b.resolve_target()
+    n.del_member("x")
+    m.set_member("x", u)        # the deleted object is inserted again, over m.x: the dead alias `a` is re-targeted too
+    ctx.witness("C16-F3", col["m.t"] is b and b.target is u and col["m.x"] is u and u.aliases.get("m.t") is a)
+
+
 def explore(ctx):
     rng = ctx.rng
     if "C16-F1" in ctx.known:
         replay_witness(ctx)
+    if "C16-F2" in ctx.known:
+        replay_witness_f2(ctx)
+    if "C16-F3" in ctx.known:
+        replay_witness_f3(ctx)
+    if "C16-F4" in ctx.known:
+        replay_witness_f4(ctx)
     check_parts(ctx)
 
     # corpus
@@ -1214,7 +1461,8 @@ def explore(ctx):
     batch = []
 
     # random state-guided histories
-    for stream, cnt in (("top-down", ctx.budget(1500, 12000)), ("bottom-up", ctx.budget(800, 6000)), ("malformed", ctx.budget(300, 2500))):
+    for stream, cnt in (("top-down", ctx.budget(1500, 12000)), ("reattach", ctx.budget(1200, 9000)), ("bottom-up", ctx.budget(800, 6000)),
+                        ("malformed", ctx.budget(300, 2500))):
         for _ in range(cnt):
             g = Gen(rng, stream)
             hist = g.history(rng.randint(5, 40))
@@ -1236,7 +1484,7 @@ def explore(ctx):
 
 def search(ctx):
     """A tie broke and no failing input is known yet: evaluate the property on the implementation only, harder."""
-    for stream, cnt in (("top-down", 3000), ("malformed", 500)):
+    for stream, cnt in (("top-down", 3000), ("reattach", 3000), ("malformed", 500)):
         for _ in range(cnt):
             g = Gen(ctx.rng, stream)
             hist = g.history(ctx.rng.randint(3, 30))
@@ -1254,6 +1502,21 @@ def search(ctx):
         impl_only_history(ctx, ctx.rng.randint(5, 30), "search-impl-only")
         if ctx.prop_failures:
             return
+
+
+def self_replace(w: World, op) -> bool:
+    """set_member(k, v) where v already is the non-alias member under k (cut in the model: the re-targeting loop iterates the
+    dictionary it writes to)."""
+    if op[0] != "set" or op[1] != 0 or op[4] >= len(w.objs) or not op[3]:
+        return False
+    try:
+        c = w.recv(op[2])
+        for part in op[3][:-1]:
+            c = c.members[part]
+        m = c.members.get(op[3][-1])
+    except Exception:  # noqa: BLE001
+        return False
+    return m is not None and m is w.objs[op[4]] and not m.is_alias
 
 
 def through_alias(w: World, op) -> bool:
